@@ -22,7 +22,7 @@ SPECD = os.path.join(vlib.SPEC, "timers")
 TICKS = [1_000_000, 1_000_003, 1_000_000_000, 1, 999, 86_400_000_000_000 // 1000, 123_456_789]
 
 SW_ACTIONS = ["Advance", "Start", "StartOwned", "Stop", "DropGuard", "Overwrite", "Discard", "Clear"]
-TM_ACTIONS = ["Advance", "TimerNew", "TimerStop", "TsNew", "TocNew", "TocClose"]
+TM_ACTIONS = ["Advance", "AdvanceB", "SetAmbient", "TimerNew", "TimerStop", "TsNew", "TocNew", "TocClose"]
 
 
 def extract_replay(r, path):
@@ -64,6 +64,18 @@ def generate(chk, module, cfg, name, simulate=None, depth=None, seed=None, invar
 VIOLATION_KINDS = {"close", "timestamp", "format", "panic"}
 
 
+def fmt_step(kind, s):
+    if kind == "sw":
+        op, g, d = s[0], s[1], s[2]
+        if op == "Amb":
+            return f"[override={('none', 'A', 'B')[g]}{', other thread' if d else ''}]"
+        return op + (f"({g})" if g else "") + (f"+{d}" if op.startswith("Advance") else "")
+    op = s["op"]
+    if op == "Amb":
+        return f"[override={s['a']}{', other thread' if s['d'] else ''}]"
+    return op + (f"+{s['d']}" if op.startswith("Advance") else "") + (f"({s['a']})" if s.get("a") else "")
+
+
 def replay_file(chk, kind, path, n, ticks, label):
     """Run `tm` on a behaviour file for each tick length; turn mismatches into verdicts."""
     total_bad = 0
@@ -88,9 +100,7 @@ def replay_file(chk, kind, path, n, ticks, label):
                 m = viol[0]
                 steps = beh if kind == "sw" else beh["steps"]
                 upto = steps[: m["step"] + 1]
-                ops = [(s[0] if kind == "sw" else s["op"]) + (f"({s[1]})" if kind == "sw" and s[1] else "")
-                       + (f"+{s[2] if kind == 'sw' else s['d']}" if (s[0] if kind == "sw" else s["op"]) == "Advance" else "")
-                       for s in upto]
+                ops = [fmt_step(kind, s) for s in upto]
                 unit = "ns since the epoch" if m["kind"] in ("timestamp", "format") else "ticks; -1 = nothing"
                 chk.violation(
                     f"{label}: after {' '.join(ops)} (tick {tick} ns): {m['what']}: the specification expects "
@@ -115,7 +125,9 @@ def run(prop, tier):
                 "(each sequence x tick length); after every step the closed value is compared with the property layer's "
                 "value computed by TLC (close_observations_compared); distinct_nontrivial = distinct operation sequences")
     chk.assumptions = [
-        "ManuallyAdvancedTimeSource::update_instant/update_time are the only clock (single thread, no real time)",
+        "two ManuallyAdvancedTimeSources are the only clocks (no real time); operations run under a thread-local override "
+        "A / B / none on the creating thread or on a freshly spawned thread; the tokio-runtime level of the resolution order "
+        "is not exercised",
         "while a borrowed TimerGuard lives the stopwatch cannot be closed (Rust borrow rule): those steps are checked at the "
         "first step after the guard is gone",
         "exhaustive only up to the depth / slot / advance constants of the MC_*.cfg files; longer histories by random walks",
@@ -129,9 +141,19 @@ def run(prop, tier):
         r = vlib.model_check(SPECD, "Stopwatch", cfg, timeout=3600)
         check_coverage(r, SW_ACTIONS, "Stopwatch/SwSpec")
         chk.add_model("Stopwatch/" + cfg, r)
+        # the stopwatch under a changing ambient override / thread (it captured source A)
+        r = vlib.model_check(SPECD, "Stopwatch", "MC_sw_amb.cfg", timeout=3600)
+        check_coverage(r, SW_ACTIONS + ["AdvanceB", "SetAmbient"], "Stopwatch/SwSpec with ambient overrides")
+        chk.add_model("Stopwatch/MC_sw_amb.cfg", r)
         r = vlib.model_check(SPECD, "Stopwatch", "MC_tm.cfg", timeout=3600)
         check_coverage(r, TM_ACTIONS, "Stopwatch/TmSpec")
         chk.add_model("Stopwatch/MC_tm.cfg", r)
+        # negative model: a close-timestamp that prefers the ambient override must be rejected
+        r = vlib.tlc(SPECD, "Stopwatch", "MC_tm_neg.cfg", timeout=600)
+        if not r.invariant_violated:
+            raise vlib.ToolError("the property layer accepts a close-timestamp that reads the ambient override (MC_tm_neg.cfg)")
+        log(f"[tlc] Stopwatch/MC_tm_neg.cfg: close-timestamp reading the ambient override rejected ({r.invariant_violated[0]})")
+        chk.extra["negative_models_rejected"] = [{"model": "TimestampOnClose prefers the ambient override", "invariant": r.invariant_violated[0]}]
     ticks = TICKS[:2] + [TICKS[2 + chk.seed % (len(TICKS) - 2)]]
     chk.extra["tick_lengths_ns"] = ticks
     # 2. every behaviour up to the depth bound, through the real code
@@ -139,11 +161,14 @@ def run(prop, tier):
             ("tm", "TimersReplay", "MC_tm_replay_quick.cfg" if quick else "MC_tm_replay.cfg", "tm-exhaustive")]
     if not quick:
         gens.append(("sw", "StopwatchReplay", "MC_sw_replay_d8.cfg", "sw-exhaustive-d8"))
+    # histories that also switch the ambient thread-local override (A / B / none) and the thread
+    gens += [("sw", "StopwatchReplay", "MC_sw_replay_amb_quick.cfg" if quick else "MC_sw_replay_amb.cfg", "sw-ambient"),
+             ("tm", "TimersReplay", "MC_tm_replay_amb_quick.cfg" if quick else "MC_tm_replay_amb.cfg", "tm-ambient")]
     nb = {}
     for kind, module, cfg, label in gens:
         path, n = generate(chk, module, cfg, label)
         nb[label] = n
-        replay_file(chk, kind, path, n, ticks, label)
+        replay_file(chk, kind, path, n, ticks[:2] if label.endswith("ambient") else ticks, label)
         chk.nontrivial.update(f"{label}:{i}" for i in range(n))
         chk.sample({label: nth_line(path, n // 2)})
     # 3. long random walks (TLC -simulate, seeded); (walks per TLC worker, steps)
@@ -165,7 +190,10 @@ def run(prop, tier):
     # vacuity: the interesting cases must actually have been reached
     cases = chk.extra.get("cases_reached", {})
     for need in ["switch_to_shared_with_kept", "overwrite_over_kept", "discard_with_kept", "clear_with_live_guards",
-                 "owned_acts_while_borrowed", "borrowed_guard_on_shared_repr", "toc_close", "timer_stop_repeated_or_immediate"]:
+                 "owned_acts_while_borrowed", "borrowed_guard_on_shared_repr", "toc_close", "timer_stop_repeated_or_immediate",
+                 "sw_op_under_override_b", "sw_op_on_other_thread", "timer_op_under_different_override",
+                 "toc_closed_under_different_override", "toc_closed_on_other_thread_with_different_override",
+                 "explicit_source_under_other_override", "env_no_override"]:
         if not cases.get(need):
             raise vlib.ToolError(f"no generated behaviour reached the case '{need}'")
     return chk.finish()
